@@ -12,19 +12,19 @@ CLAIMED = {
    "Needs root with CAP_SYS_ADMIN; one canonical schedule per configuration (one deviation in thorough); chosen modes that do not let the client open its files are expected to make connect fail; the 0770 connection directory is the documented design (group bits on the directory are not flagged)."),
  "C06": ("exploration", "DESIGN.md §2 C06", "vp",
    "bounded-exhaustive enumeration of hostile handshake byte strings and of hostile messages of an accepted client against a live real server, ASan plus a reading message callback as oracle",
-   "With a well-behaved control client connected, a raw client sends every prefix of a valid handshake, every field (id, size, max_msg_size) replaced by eight boundary values, 1-64 bytes of trailing garbage, and the request split at every byte with loop iterations in between, each followed by close, silence or further writing; an accepted client then writes, through the raw channels (ring chunk + notification byte, or datagram), messages whose real length (0..2*max) and announced length (INT_MIN..INT_MAX around the real length and the maximum) disagree in every combination, with three ids. The server must keep serving the control client, never invoke the message callback for an unaccepted peer, never tell the callback more bytes than were received or negotiated (the callback reads exactly that many bytes under ASan), and release the peer's descriptors.",
+   "With a well-behaved control client connected, a raw client sends every prefix of a valid handshake, every field (id, size, max_msg_size) replaced by eight boundary values, 1-64 bytes of trailing garbage, and the request split at every byte with loop iterations in between, each followed by close, silence or 24 KiB of further writing; an accepted client then writes, through the raw channels (ring chunk + notification byte, or datagram), messages whose real length (0..2*max) and announced length (INT_MIN..INT_MAX around the real length and the maximum) disagree in every combination, with three ids. The server must keep serving the control client, never invoke the message callback for an unaccepted peer, never tell the callback more bytes than were received or negotiated (the callback reads exactly that many bytes under ASan), and release the peer's descriptors.",
    "Input sets bounded as stated; the raw channels of the hostile client are reached through the client-side struct qb_ipc_one_way."),
  "C03": ("fault_enumeration", "DESIGN.md §2 C03", "vp",
    "exhaustive crash-point enumeration: the dying party (client or server coroutine of the real IPC code) is stopped before each of its wrapped system/libc calls in turn and exactly its descriptors are closed",
-   "For both transports and each session script (connect/disconnect; two request/response round trips; further requests left queued behind flow control; queued events; a raw client delivering only the first j handshake bytes) the run is repeated with the client killed before its K-th wrapped call for every K, with the server killed before its K-th call during each session, and with the server killed K calls after the connect while sendv_recv(-1), event_recv(-1) or recv(500 ms) is waiting on a server that does not answer. A control client stays connected. Oracle: destroyed exactly once (closed first iff created was reported), the control client's round trip still works, /dev/shm listing, descriptor count and active-connection statistic return to the baseline; waiting calls return within a bounded virtual time, later calls fail at once, and after the client's disconnect no shared-memory file of the dead server remains.",
-   "Death at call boundaries of the wrapped set (socket, connect, bind, accept, send/recv(msg), writev, poll, epoll_wait, sem_timedwait, nanosleep, open, unlink, rmdir, mkdtemp, ftruncate, chmod, chown, munmap, shutdown) or while blocked in one of them; one canonical schedule per crash point in quick, one deviation in thorough; an empty directory left by a dead server is not counted as a shared-memory file."),
+   "For both transports and each session script (connect/disconnect; two request/response round trips; further requests left queued behind flow control; queued events; a raw client delivering only the first j handshake bytes) the run is repeated with the client killed before its K-th wrapped call for every K, with the server killed before its K-th call during each session, with the server killed K calls after the connect while sendv_recv(-1), event_recv(-1) or recv(500 ms) is waiting on a server that does not answer, and - deaths at arbitrary moments of the OTHER side's execution - with the client killed (wherever it is, also blocked inside a call) just before the J-th wrapped call the server makes during the session for every J, and the server killed just before the client's J-th call. A control client stays connected. Oracle: destroyed exactly once (closed first iff created was reported), the control client's round trip still works, /dev/shm listing, descriptor count and active-connection statistic return to the baseline; waiting calls return within a bounded virtual time, later calls fail at once, and after the client's disconnect no shared-memory file of the dead server remains.",
+   "Death at call boundaries of the wrapped set (socket, connect, bind, accept, send/recv(msg), writev, poll, epoll_wait, sem_timedwait, nanosleep, open, unlink, rmdir, mkdtemp, ftruncate, chmod, chown, munmap, shutdown) or while blocked in one of them; one canonical schedule per crash point in quick, one deviation in thorough; an empty directory left by a dead server is not counted as a shared-memory file; a server that dies while the client is already inside qb_ipcc_disconnect is not judged for leftovers."),
  "C04": ("model_checking", "DESIGN.md §2 C04", "vp",
    "bounded-exhaustive exploration of client scripts, application actions taken at loop-iteration boundaries and inside callbacks, and client/server interleavings of the real IPC server against a per-connection callback automaton (ASan for freed state)",
-   "One client with scripts of up to 3 operations over connect, send, disconnect, die, idle (and two clients with shorter scripts, context-bounded) against a real server on both transports; at every loop-iteration boundary where something changed and inside every created/msg_process/closed callback the application takes one of: nothing, qb_ipcs_disconnect of any known connection, event_send, connection_ref, connection_unref (of references it holds), iterate the connection list, change the rate limit, qb_ipcs_destroy; the closed callback returns non-zero 0-2 times. Oracle: accept -> created -> msg* -> closed+ -> destroyed per connection, closed only if created, destroyed exactly once and never while the application holds a reference, everything destroyed in the end, no touch of freed connection/service state.",
+   "One client with scripts of up to 3 operations over connect, send, disconnect, die, idle (and two clients with shorter scripts, context-bounded) against a real server on both transports; at every loop-iteration boundary where something changed and inside every created/msg_process/closed callback the application takes one of: nothing, qb_ipcs_disconnect of any known connection, event_send, connection_ref, connection_unref (of references it holds), iterate the connection list, change the rate limit, qb_ipcs_destroy; the closed callback returns non-zero 0-2 times; what the scripts left queued is still dispatched with the application free to act. Oracle: accept -> created -> msg* -> closed+ -> destroyed per connection, closed only if created, destroyed exactly once and never while the application holds a reference, everything destroyed in the end, no touch of freed connection/service state.",
    "At most 1-2 non-trivial application actions per run; one forked process per execution; a dying client = its descriptors are closed."),
  "C02": ("model_checking", "DESIGN.md §2 C02", "vp",
    "bounded-exhaustive exploration of client scripts, server behaviours and client/server interleavings of the real IPC code (server and client as coroutines in one process, real sockets/epoll/shm, virtual waiting)",
-   "A real qb_ipcs server on a real qb_loop and a real qb_ipcc client run as coroutines of one process on both transports with libqb's minimum negotiated message size. Every client script of 2-3 operations over send (five lengths incl. max and max+1), sendv, recv(0), event_recv(0) and poll(fd_get), every msg_process behaviour per call (echo / nothing / back-off), server actions at loop-iteration boundaries (event_send of three lengths, the four rate-limit settings, a burst of 7 events on minimum-size socket buffers) and every interleaving of client operations with server iterations — plus up to 1 preemption at any system call — is executed. Oracle: three reference FIFOs with byte-exact payloads, a failed send has no effect, EMSGSIZE above the maximum, POLLIN on the client's descriptor while events are queued, drain to quiescence with nothing lost, duplicated or extra.",
+   "A real qb_ipcs server on a real qb_loop and a real qb_ipcc client run as coroutines of one process on both transports with libqb's minimum negotiated message size. Every client script of 2-3 operations over send (five lengths incl. max and max+1), sendv, recv(0), event_recv(0) and poll(fd_get), every msg_process behaviour per call (echo / nothing / back-off), server actions at loop-iteration boundaries (event_send of three lengths, the four rate-limit settings, a burst of 7 events on minimum-size socket buffers) and every interleaving of client operations with server iterations — plus up to 1 preemption at any system call — is executed; the server application also acts on its own (its loop is woken once before the client's first and twice after its last operation). Oracle: three reference FIFOs with byte-exact payloads (requests are compared at callback entry and again at its end), a failed send has no effect, EMSGSIZE above the maximum, POLLIN on the client's descriptor while events are queued, drain to quiescence with nothing lost, duplicated or extra.",
    "Bounds as stated; one client; waiting is virtual (zero-timeout kernel queries + virtual deadlines) while sockets, epoll and shared-memory files are the real kernel objects; word-level ring interleavings are C01's job; kernel buffer sizes of this sandbox."),
  "C08": ("model_checking", "DESIGN.md §2 C08", "vp",
    "bounded-exhaustive enumeration of registration sets and of actions taken at every callback invocation on the real event loop (virtual clock, real epoll/eventfd/signals) against a registration model",
@@ -32,7 +32,7 @@ CLAIMED = {
    "Bounds as stated; signal delivery by raise() is synchronous; 14-iteration horizon."),
  "C09": ("model_checking", "DESIGN.md §2 C09", "vp",
    "exhaustive enumeration of duration tuples and of timer-heap add/delete/advance histories on the real event loop driven by a virtual clock",
-   "The real qb_loop runs with clock_gettime/clock_getres/epoll_wait wrapped: the virtual clock advances by exactly the timeout the loop passes to epoll_wait, so sleeping past an expiry or blocking without a timeout is observed directly. All tuples of up to 3 timers with durations from 0 to 2^64-1 ns (incl. the 2^31 and 2^32 ms boundaries) x priorities, with and without a queued job, are run for up to 12000 iterations of virtual time; all histories of up to 7 (thorough 9) operations over add(10/20/30 ms), delete(k-th pending) and run-for-10-ms exercise the heap. Oracle: never early, at most slack late, expiry order within a priority, every poll timeout finite and not beyond the earliest expiry + slack, deleted timers never fire, is_running/time_remaining consistent.",
+   "The real qb_loop runs with clock_gettime/clock_getres/epoll_wait wrapped: the virtual clock advances by exactly the timeout the loop passes to epoll_wait, so sleeping past an expiry or blocking without a timeout is observed directly. All tuples of up to 3 timers with durations from 0 to 2^64-1 ns (incl. the 2^31 and 2^32 ms boundaries) x priorities, with and without a queued job, are run for up to 12000 iterations of virtual time; all histories of up to 7 (thorough 9) operations over add(10/20/30 ms), delete(k-th pending) and run-for-10-ms exercise the heap; heap shapes: 2-7 (thorough 8) timers with pairwise distinct expiries added in every order, then every deletion of up to two of them, run to the end. Oracle: never early, at most slack late, expiry order within a priority, every poll timeout finite and not beyond the earliest expiry + slack, deleted timers never fire, is_running/time_remaining consistent.",
    "Slack = 2 ms (+50 ms once a job was queued); what is_running reports between expiry and dispatch is not judged; durations limited to the listed boundary set."),
  "C10": ("model_checking", "DESIGN.md §2 C10", "vp",
    "exhaustive enumeration of workloads on the real event loop (deterministic run, rotation period 3, fixed horizon) with a window oracle",
@@ -44,7 +44,7 @@ CLAIMED = {
    "Damage grammar bounded as stated (single and selected double damage); result code of the print call is not judged; batches of 100 files per forked process with exact crash attribution."),
  "C14": ("exploration", "DESIGN.md §2 C14", "vp",
    "bounded-exhaustive enumeration of a printf-format/argument grammar through the real blackbox encoder and decoder with exact-size heap buffers (ASan), compared with vsnprintf",
-   "All formats of up to 2 (thorough 3) conversions — the first from the full product of flags, width (incl. *), precision (incl. .*), length modifier l ll z t j and conversion d i o u x X c s p e E f F g G a A %% that C defines, the others from 14 representative conversions — with literal text of 0, 2 and 600 characters around them and extreme integer, floating and string arguments (empty, containing '%', 600 characters, NULL) are encoded with qb_vsnprintf_serialize into buffers of exactly fit-1, fit and 512 bytes and decoded with qb_vsnprintf_deserialize into buffers of 1, 16, fit and 512 bytes; the decoded text must equal vsnprintf's whenever it fits, and no byte may be touched outside either buffer.",
+   "All formats of up to 2 (thorough 3) conversions — the first from the full product of flags, width (incl. *), precision (incl. .*), length modifier l ll z t j and conversion d i o u x X c s p e E f F g G a A %% that C defines, the others from 14 representative conversions — with literal text of 0, 2 and 600 characters around them and extreme integer, floating and string arguments (empty, containing '%', 600 characters, NULL) are encoded with qb_vsnprintf_serialize into buffers of exactly fit-1, fit and 512 bytes and decoded with qb_vsnprintf_deserialize into buffers of 1, 16, fit and 512 bytes; the decoder reads from an exact-size copy of the record; the decoded text must equal vsnprintf's whenever it fits, and no byte may be touched outside any of the buffers.",
    "Grammar bounded as stated; argument lists are built with the x86-64 SysV calling convention; %lc, %ls, %n and a NULL %s with a precision are outside the alphabet; a serialize return value >= the space counts as 'did not fit' (the caller's contract)."),
  "C13": ("exploration", "DESIGN.md §2 C13", "vp",
    "bounded-exhaustive enumeration of a format/message/limit grammar against the real formatter with exact-size heap buffers (ASan) and a reference formatter",
@@ -52,11 +52,11 @@ CLAIMED = {
    "Grammar bounded as stated; '-' pads on the left as in tests/check_log.c; the text of a right-aligned field cut by the limit is not judged; formats with undocumented directives are judged for memory safety and termination only; TZ=UTC."),
  "C12": ("model_checking", "DESIGN.md §2 C12", "vp",
    "bounded-exhaustive enumeration of configuration/log-call histories on the real logging core with an absolute reference matcher and a differential fresh-twin call-site oracle",
-   "Every history up to the stated depth over filter ADD/REMOVE/CLEAR_ALL (exact file, function alternatives, format substring, '*', the three regex types, two priority windows), tag SET/CLEAR/CLEAR_ALL, enable/disable, close/reopen on two custom targets and log calls from four call sites is run after a fresh qb_log_init. Each log call must reach exactly the enabled targets whose stored rules select the site (reference implementation of the documented matching) exactly once with the tag of the last matching tag rule; every call is doubled by a twin call site seen for the first time at that moment, which must be routed identically (order independence); an epilogue logs all sites and fresh twins.",
+   "Every history up to the stated depth over filter ADD/REMOVE/CLEAR_ALL (exact file, function alternatives, format substring, '*', the three regex types, two priority windows), tag SET/CLEAR/CLEAR_ALL, enable/disable, close/reopen on two custom targets and log calls from four call sites (whose file/function names are prefixes of each other and of the filter texts) is run after a fresh qb_log_init, from three start states (empty; target 0 enabled with a catch-all filter; the same with every site already executed). Each log call must reach exactly the enabled targets whose stored rules select the site (reference implementation of the documented matching) exactly once with the tag of the last matching tag rule; every call is doubled by a twin call site seen for the first time at that moment, which must be routed identically (order independence); an epilogue logs all sites and fresh twins.",
    "Depth 3 over the full alphabet, depth 4 over filters only in thorough; REMOVE/TAG_CLEAR are judged only where it is unambiguous which stored rule is meant; syslog target disabled."),
  "C16": ("model_checking", "DESIGN.md §2 C16", "vp",
    "preemption-bounded exhaustive exploration of producer histories against libqb's own logging thread run as a coroutine (TSan-ABI scheduling points in lib/log_thread.c, wrapped pthread/semaphore/lock calls)",
-   "Every legal producer history up to the stated depth over init, custom_open, set-threaded, thread_start, enable/disable, reconfigure, log, close, fini and re-init is executed with the real logging thread as a second coroutine; every interleaving up to the preemption bound at each memory access of lib/log_thread.c and each synchronisation call is explored, one forked process per execution. Oracle: each message written exactly once, in order, by the time qb_log_fini returns (or accounted for by the 'messages lost' report in the 130 x 4000-byte burst runs), no deadlock, no sanitizer report, second init/start/log/fini cycle equal to the first.",
+   "Every legal producer history up to the stated depth over init, custom_open, set-threaded, thread_start, enable/disable, reconfigure, log, close, fini and re-init is executed with the real logging thread as a second coroutine; every interleaving up to the preemption bound at each memory access of lib/log_thread.c and each synchronisation call is explored, one forked process per execution. Oracle: each message written exactly once, in order, by the time qb_log_fini returns (or accounted for by the 'messages lost' report in the 260 x 4000-byte burst runs, where three more messages logged after the backlog was worked off must be written too), a write takes time (the thread yields inside the target's logger) and the target's close callback must never run meanwhile, no deadlock, no sanitizer report, second init/start/log/fini cycle equal to the first.",
    "Preemption bound 1 (depth 8) and 2 (depth 6) in quick; sequentially consistent scheduler; single producer; logging on a THREADED target before qb_log_thread_start is outside the alphabet."),
  "C19": ("model_checking", "DESIGN.md §2 C19", "vp",
    "bounded-exhaustive history enumeration (sequential) plus stateful exhaustive interleaving exploration of the real array code at memory-access granularity (TSan-ABI scheduling points)",
@@ -73,15 +73,15 @@ CLAIMED = {
  "C11": ("model_checking", "DESIGN.md §2 C11", "vp",
    "explicit enumeration of write sequences on real overwrite rings with a full drain of a snapshot after every write",
    "Real overwrite rings (three sizes, with/without semaphore, clean or pre-filled with marker-valued words) from wrap-critical and from every start position: every sequence of writes up to the stated depth over six lengths (tiny to exactly S) and two payloads; after every single write the ring image is saved, drained with qb_rb_chunk_read, compared with the newest-k suffix of the history (k >= 1 and k >= what the 16-byte-overhead rule guarantees) and restored.",
-   "Depth-bounded; sizes limited to the listed three; the blackbox part (third run) dumps and prints the real blackbox after every record and requires an unbroken run of the newest records ending with the last one."),
+   "Depth-bounded; sizes limited to the listed three; the blackbox part (third run) logs short, mixed, 400-character, largest-possible (480 characters from a function with a 60-character name) and over-long records, dumps and prints the real blackbox after every record and requires an unbroken run of the newest records ending with the last one."),
  "C17": ("model_checking", "DESIGN.md §2 C17", "vp",
    "bounded-exhaustive enumeration of operation histories on the real hashtable/skiplist/trie against a dictionary + notifier-registration model (stateless explorer)",
    "Every history up to the stated depth (from the empty map and from 30 seeded non-initial maps) over put/rm on eight colliding keys, full/prefix iteration, abandoned foreach, notifier add/delete and destroy is executed on each real map implementation through qbmap.h only; return values, get of every key, count, iteration order/content and the exact multiset of notifier calls are compared with the model after every step; ASan is an additional oracle.",
    "Depth-bounded; key alphabet of 8 keys; skiplist node levels come from a wrapped random() (fixed per key, deviations explored up to 2); per-key notifiers judged only during the life of their entry; trie order = bytes compared as signed chars, a key before its extensions."),
  "C18": ("model_checking", "DESIGN.md §2 C18", "vp",
    "bounded-exhaustive enumeration of interleaved iterator and mutation histories on the real maps (stateless explorer, ASan + iteration/dictionary oracles)",
-   "Every history up to the stated depth, from every seeded map, over put/rm of four keys and create/next/free of two simultaneously open iterators is executed on each real map; ASan catches any touch of freed memory, every finished iteration is checked for completeness/uniqueness, the value-release notifier must run exactly once per value, and once the iterators are gone the map must equal the dictionary of survivors. Four genuine defects are listed in known_findings.json; executions are cut exactly where they pass through one of their triggers.",
-   "Depth-bounded; two iterators; four keys; return values of rm/get are not judged while an iterator is open; executions through a listed known-finding trigger are cut (counted in the evidence)."),
+   "Every history up to the stated depth, from every seeded map, over put/rm of four keys and create/next/free of two simultaneously open iterators is executed on each real map; ASan catches any touch of freed memory, every finished iteration is checked for completeness/uniqueness, the value-release notifier must run exactly once per value, and once the iterators are gone the map must equal the dictionary of survivors. Further runs: the second iterator is a trie prefix iterator (it must only return keys with its prefix); skiplist levels as deviations; histories that start with iterators already parked on adjacent entries.",
+   "Depth-bounded; two iterators; four keys; return values of rm/get are not judged while an iterator is open; the known-findings list is empty at present (five iterator defects were repaired), the cut mechanism for listed triggers stays in place."),
  "C20": ("model_checking", "DESIGN.md §2 C20", "vp",
    "bounded-exhaustive enumeration of operation histories on the real qb_hdb against a reference model (stateless explorer)",
    "Every history up to the stated depth over create/get/put/destroy/refcount_get/iterate on live, destroyed, reused-slot and never-issued handle values is executed on the real handle database and compared step by step with a slot/refcount model; ASan is an additional oracle.",
